@@ -28,11 +28,11 @@ META = dict(
          "matching at or beyond the end of the text, the case _parseNoCache converts (leaf_indexerror_only_at_end); a "
          "successful _parse of any element never ends before the location it was called at (parse_match_forward); every "
          "location reported - the end of a match, the loc of the ParseBaseException raised by any _parse call or by "
-         "parse_string(parse_all) - is <= len(text) + 1 (parse_locations_inside, parseString_error_loc_inside; induction "
+         "parse_string(parse_all), every (tokens, start, end) of scan_string and every exception escaping it - is <= "
+         "len(text) + 1 (parse_locations_inside, parseString_error_loc_inside, scanString_locations_inside; induction "
          "over the fuel through every parseImpl, PPProofs/Lemmas/ParseBound.lean). "
          "lineno/col/line consistency for every loc is C14's theorem. PARTIAL: termination is not a theorem (the model "
-         "returns `hang` where the code would loop; no fuel bound proved); scan_string's exception locations, the other "
-         "internal exception types, the diagnostic accessors and every class outside the model (Each, Regex, QuotedString, White, Dict, "
+         "returns `hang` where the code would loop; no fuel bound proved); the other internal exception types, the diagnostic accessors and every class outside the model (Each, Regex, QuotedString, White, Dict, "
          "IndentedBlock, helpers, pyparsing_common) are decided by the real-code oracle over the modelled generator and the "
          "whole exported zoo.",
     note="Trusted: Lean kernel; axioms propext/Classical.choice/Quot.sound; the parse model (validated differentially on "
@@ -45,7 +45,7 @@ META = dict(
 
 THEOREMS = [
     "PP.Parse.no_indexerror_escapes", "PP.Parse.parse_match_forward", "PP.Parse.parse_locations_inside",
-    "PP.Parse.parseString_error_loc_inside",
+    "PP.Parse.parseString_error_loc_inside", "PP.Parse.scanString_locations_inside",
     "PP.Parse.leaf_indexerror_only_at_end",
     "PP.Parse.parseString_no_indexerror",
     "PP.Parse.scanString_no_indexerror",
